@@ -74,7 +74,11 @@ func c20Judge(ans string, crash *verifkit.Crash, inputLen int) (string, string) 
 	if crash != nil {
 		switch crash.Kind {
 		case "infrastructure", "exit":
-			return "INCONCLUSIVE", crash.Fatal
+			l := crash.Log
+			if len(l) > 400 {
+				l = l[:400]
+			}
+			return "INCONCLUSIVE", crash.Fatal + " | child stderr: " + strings.ReplaceAll(l, "\n", " / ")
 		case "timeout":
 			return "INCONCLUSIVE", "decode did not finish within the watchdog"
 		case "no-termination":
@@ -107,13 +111,13 @@ func c20Judge(ans string, crash *verifkit.Crash, inputLen int) (string, string) 
 
 func TestVerif_C20(t *testing.T) {
 	rep := verifkit.NewReport("C20")
-	rep.Rule = "inputs: for every message type, generated valid encodings with a maximal varint (0xfd ffff, 0xfe ffffffff, 0xff 2^32, 0xff 2^64-1, 0xff 2^63-1) or a mid-range claim (4 Mi, 32 Mi) spliced in at every byte offset, plus random strings behind every valid type code and random type codes; each input is decoded in a probe child (address space limited to 3 GiB) that reports outcome and bytes allocated; a panic, a process-fatal error or allocation above 1 MiB + 64*len(input) is a finding with signature (message type, kind, dying function). Non-trivial = the decoder got past the type code; distinct by (type, splice, offset class, outcome)"
+	rep.Rule = "inputs: for every message type, generated valid encodings with a maximal varint (0xfd ffff, 0xfe ffffffff, 0xff 2^32, 0xff 2^64-1, 0xff 2^63-1) or a mid-range claim (4 Mi, 32 Mi) spliced in at every byte offset (every offset of the first 64 bytes, then a stride: about 130 offsets per encoding in the quick tier, 400 in the thorough tier), plus random strings behind every valid type code and random type codes; each input is decoded in a probe child (address space limited to 3 GiB) that reports outcome and bytes allocated; a panic, a process-fatal error or allocation above 1 MiB + 64*len(input) is a finding with signature (message type, kind, dying function). Non-trivial = the decoder got past the type code; distinct by (type, splice, offset class, outcome)"
 	rep.Assumptions = []string{"TotalAlloc delta measured with runtime.ReadMemStats around the call in the child", "a death of the probe child before it serves an input is infrastructure (inconclusive), not a finding"}
 	defer rep.Write()
 
 	child := verifkit.NewChild("c20-msg")
 	defer child.Close()
-	perType := verifkit.N(2, 300)
+	perType := verifkit.N(2, 60)
 	ci := 0
 	probe := func(typ string, region string, shape string, in []byte) {
 		ans, crash, err := child.Probe(in)
@@ -173,7 +177,19 @@ func TestVerif_C20(t *testing.T) {
 			if len(enc) > 700 {
 				enc = enc[:700] // keep the number of offsets bounded; truncation is hostile too
 			}
+			// quick tier: every offset of the first 64 bytes, then a stride (at most ~130 offsets);
+			// an input that kills the child costs a respawn, and long encodings with an embedded
+			// transaction do so at most offsets
+			stride := 1
+			if !verifkit.Thorough() && len(enc) > 130 {
+				stride = (len(enc)-64)/66 + 1
+			} else if verifkit.Thorough() && len(enc) > 400 {
+				stride = (len(enc)-64)/336 + 1
+			}
 			for off := 1; off < len(enc); off++ {
+				if off > 64 && (off-64)%stride != 0 {
+					continue
+				}
 				for si, sp := range c20Splices {
 					in := append(append(append([]byte(nil), enc[:off]...), sp...), enc[off+1:]...)
 					probe(name, regionOf(off), fmt.Sprintf("valid %s encoding with splice %d at offset %d", name, si, off), in)
